@@ -13,7 +13,14 @@ META = {
             'and that removing the locks loses an update. The skeletons of Logger::processMessage / OwnThreadHandler::process are '
             're-translated from /repo on every run and must pass `bracketed` by computation. Partial tie: the real code is connected '
             'by the translated skeleton and by recorded traces (N producer threads through qInfo/qWarning and through a bare handler) '
-            'that must be accepted by the extracted acceptor (every model trace is accepted - proved) and satisfy the extracted oracle.',
+            'that must be accepted by the extracted acceptor (every model trace is accepted - proved) and satisfy the extracted oracle. '
+            'Round 4: (e) the asynchronous->synchronous transition (resetOwnThread while producers keep logging): a second interleaving '
+            'model (producers, the lock-free worker, the resetting thread interpreting the translated ORDER of drain/quit/clear) whose '
+            'every run, for every reset program with `reset_ok`, is simulated by the SAME acceptor (mutual exclusion worker/producer, '
+            'exactly once, per-thread order, consecutive numbers, no stranded message; clear-before-drain refuted); scenario resetwhile. '
+            '(f) signal sinks: Qt AutoConnection delivery rule as an acceptor over (sink delivery, emission, reception) traces, proved: '
+            'emission in pipeline order, receiver exactly once and per-thread order, pipeline order at the receiver when its own thread '
+            'does not log; scenarios signal / signalmain with the library\'s own sendToSignal connection.',
     'note': 'Trusted: Coq 8.16.1 kernel (vm_compute only on closed terms: bracketed src_*, the refutation witness, the examples); '
             'no axioms; tools/s2c/conc.py (textual, brace-aware skeleton translation; unknown protocol-touching statements abort it); '
             'extraction (ExtrOcamlBasic) + ocaml/drv_conc.ml; harness/h_conc.cpp (global atomic ticket taken only inside the '
@@ -25,6 +32,14 @@ META = {
 }
 
 NS = [2, 4, 8, 16, 32, 64]
+SIGNAL_MODES = ('signal', 'signalmain', 'baresignal', 'baresignalmain')
+RESET_MODES = ('resetwhile', 'bareresetwhile')
+ALL_MODES = ('logger', 'bare', 'mixed', 'fatal', 'mixed+fatal', 'throw', 'throwlogger', 'filtered', 'pattern') + SIGNAL_MODES + RESET_MODES
+
+
+def nprod(cfg):
+    """number of producers of a run: in the `...main` signal modes the main thread is producer number n"""
+    return cfg['n'] + (1 if cfg['mode'].endswith('signalmain') else 0)
 
 
 def parse_run(out):
@@ -111,13 +126,110 @@ def run_one(impl, cfg, timeout=120):
 
 
 def model_verdict(model, cfg, toks):
-    line = '%d %s %s' % (cfg['n'], ','.join([str(cfg['per'])] * cfg['n']), ' '.join(t for t in toks if t[0] in 'EX'))
+    line = '%d %s %s' % (nprod(cfg), ','.join([str(cfg['per'])] * nprod(cfg)), ' '.join(t for t in toks if t[0] in 'EX'))
     rc, out, _ = vlib.run_lines(model, [line])
     try:
         a, o, pre, tot = (int(x) for x in out[0].split())
     except Exception:
         return None
     return {'accept': a, 'oracle': o, 'prefix': pre, 'events': tot}
+
+
+def signal_verdict(model, cfg, toks):
+    """extracted acceptor of Qt's AutoConnection delivery rule + extracted oracle on the (X, S, Q) tokens; home = the main thread"""
+    line = 'sig %d %s' % (cfg['n'], ' '.join(t for t in toks if t[0] in 'XSQ'))
+    rc, out, _ = vlib.run_lines(model, [line])
+    try:
+        a, o, st, pre, tot = (int(x) for x in out[0].split())
+    except Exception:
+        return None
+    return {'accept': a, 'oracle': o, 'receiver_sees_pipeline_order': st, 'prefix': pre, 'events': tot}
+
+
+def classify_signal(toks, cfg, strict):
+    """direct oracles on what the signal sink emitted (S, observed by a directly connected functor) and on what the receiver
+    connected by sendToSignal() got (Q): exactly once, per-producer order, pipeline order (= consecutive sequence numbers)"""
+    ent = lambda t: tuple(int(x) for x in t.split('.')[1:4])
+    xs = [ent(t) for t in toks if t[0] == 'X']
+    ss = [ent(t) for t in toks if t[0] == 'S']
+    qs = [ent(t) for t in toks if t[0] == 'Q']
+    home = cfg['n']
+    bad = []
+    for name, what, got in (('S', 'emitted by the signal sink', ss), ('Q', 'received by the sendToSignal() receiver in the main thread', qs)):
+        seen = {}
+        for k, e in enumerate(got):
+            if e in seen:
+                bad.append(('signal_duplicate', 'message %d of producer %d (sequence number %d) %s twice' % (e[1], e[0], e[2], what), name, k))
+            seen[e] = k
+        missing = [e for e in xs if e not in seen]
+        if missing:
+            e = missing[0]
+            foreign = sum(1 for m in missing if m[0] != home)
+            bad.append(('signal_lost', '%d of %d messages delivered to the sinks were never %s (%d of them logged by threads other than the '
+                        "receiver's), first: message %d of producer %d (sequence number %d)" % (len(missing), len(xs), what, foreign, e[1], e[0], e[2]), name, len(got)))
+        for p in sorted(set(e[0] for e in got)):
+            mine = [e[1] for e in got if e[0] == p]
+            if mine != sorted(mine):
+                k = next(j for j in range(1, len(mine)) if mine[j] < mine[j - 1])
+                bad.append(('signal_reorder', 'messages of producer %d %s out of order: %d after %d' % (p, what, mine[k], mine[k - 1]), name, 0))
+                break
+    if ss != xs and not any(b[2] == 'S' for b in bad):
+        k = next((j for j in range(min(len(ss), len(xs))) if ss[j] != xs[j]), min(len(ss), len(xs)))
+        bad.append(('signal_seq_gap', 'the signal sink emitted sequence number %s as emission #%d (pipeline order has %s there): emissions are '
+                    'not in delivery order' % (ss[k][2] if k < len(ss) else '-', k, xs[k][2] if k < len(xs) else '-'), 'S', k))
+    home_emits = any(e[0] == home for e in xs)
+    if qs != xs and not any(b[2] == 'Q' for b in bad) and (strict or not home_emits):
+        k = next((j for j in range(min(len(qs), len(xs))) if qs[j] != xs[j]), min(len(qs), len(xs)))
+        kind = 'signal_receiver_overtake' if home_emits else 'signal_seq_gap'
+        bad.append((kind, 'the receiver got sequence number %s as delivery #%d (pipeline order has %s there)%s' % (
+            qs[k][2] if k < len(qs) else '-', k, xs[k][2] if k < len(xs) else '-',
+            ": a message logged by the receiver's own thread is delivered directly and overtakes queued ones" if home_emits else ''), 'Q', k))
+    return bad, {'sink_deliveries': len(xs), 'emissions': len(ss), 'receptions': len(qs),
+                 'receptions_from_receiver_thread': sum(1 for e in qs if e[0] == home),
+                 'receiver_order_differs_from_pipeline_order': int(qs != xs)}
+
+
+def signal_configs(chk, reps, total):
+    """SignalSink scenarios: a directly observed SignalSink + the library's sendToSignal() (string-based AutoConnection) to a
+    receiver QObject in the main thread; producers in N other threads (signal) and also in the main thread (signalmain)"""
+    cfgs = []
+    for _ in range(reps):
+        for mode in SIGNAL_MODES:
+            for n in chk.rng.sample([2, 4, 8], 2):
+                cfgs.append({'mode': mode, 'n': n, 'per': max(4, total // (3 * n)), 'seed': chk.rng.randrange(1, 2 ** 31),
+                             'perturb': chk.rng.choice([0, 1, 2]), 'dup': 0, 'stall': 0})
+    return cfgs
+
+
+def reset_configs(chk, reps):
+    """the asynchronous -> synchronous transition: resetOwnThread() from one thread while the producers keep logging"""
+    cfgs = []
+    for _ in range(reps):
+        for mode in RESET_MODES:
+            for n in chk.rng.sample([2, 4, 8], 2):
+                cfgs.append({'mode': mode, 'n': n, 'per': chk.rng.choice([40, 60, 100]), 'seed': chk.rng.randrange(1, 2 ** 31),
+                             'perturb': chk.rng.choice([0, 1, 2]), 'dup': chk.rng.choice([0, 0, 1]), 'stall': 0})
+    return cfgs
+
+
+def shrink_config(cfg, still_fails, budget=14):
+    """smaller thread / message counts that still show the violation (schedules are not deterministic: a few tries each)"""
+    best = dict(cfg)
+    tries = 0
+    for key, cands in (('n', (2, 3, 4)), ('per', (3, 6, 12, 25)), ('perturb', (0,))):
+        for v in cands:
+            if v >= best[key] or tries >= budget:
+                continue
+            cand = dict(best, **{key: v})
+            ok = False
+            for k in range(2):
+                tries += 1
+                if still_fails(dict(cand, seed=cand['seed'] + k)):
+                    best = dict(cand, seed=cand['seed'] + k); ok = True
+                    break
+            if ok:
+                break
+    return best
 
 
 def gen_configs(chk, reps, total, heavy=False):
@@ -195,7 +307,10 @@ def run():
     impl = vlib.build_harness('conc')
     thorough = chk.tier == 'thorough'
     total = 2000
-    cfgs = stall_configs(chk, 1, 1300) + special_configs(chk, 3 if thorough else 1, total) + entry_configs(chk, 6 if thorough else 2, total) + gen_configs(chk, 17 if thorough else 4, total)
+    cfgs = (stall_configs(chk, 1, 1300) + special_configs(chk, 3 if thorough else 1, total) + entry_configs(chk, 6 if thorough else 2, total)
+            + signal_configs(chk, 4 if thorough else 1, total) + reset_configs(chk, 5 if thorough else 1)
+            + gen_configs(chk, 17 if thorough else 4, total))
+    signal_strict = os.environ.get('VERIF_C02_SIGNAL_STRICT') == '1'
     mixed_fatal = os.environ.get('VERIF_C02_MIXED_FATAL') == '1'
     if mixed_fatal:
         cfgs += mixed_fatal_configs(chk, 2, total)
@@ -203,13 +318,16 @@ def run():
     static = dict(kv.split('=') for kv in static_out.split()) if rcs == 0 else {'error': 'model static report failed'}
     if not proof_ok:
         # the skeleton no longer satisfies the obligation (or a proof broke): widen the schedule search
-        cfgs += gen_configs(chk, 5, total, heavy=True) + entry_configs(chk, 4, total) + stall_configs(chk, 1, 2600) + special_configs(chk, 2, total)
+        cfgs += (gen_configs(chk, 5, total, heavy=True) + entry_configs(chk, 4, total) + stall_configs(chk, 1, 2600) + special_configs(chk, 2, total)
+                 + signal_configs(chk, 3, total) + reset_configs(chk, 4))
     results = []
     with concurrent.futures.ThreadPoolExecutor(max_workers=4) as ex:
         futs = [(c, ex.submit(run_one, impl, c)) for c in cfgs]
         for c, f in futs:
             results.append((c,) + f.result())
     n_events = n_deliv = 0
+    signal_stats = {}
+    reset_stats = {'runs_on_worker_thread': 0, 'runs_on_calling_thread': 0, 'transitions_with_both': 0}
     kinds = {}
     switches = 0
     reported = 0
@@ -253,10 +371,51 @@ def run():
         xs = [t for t in toks if t[0] == 'X']
         n_deliv += len(xs)
         switches += sum(1 for a, b in zip(xs, xs[1:]) if a.split('.')[1] != b.split('.')[1])
-        bad = classify(toks, cfg['n'], cfg['per'])
+        bad = classify(toks, nprod(cfg), cfg['per'])
         mv = model_verdict(model, cfg, toks)
         if mv is None:
             chk.broke('model driver produced no verdict', dict(cfg, kind='driver')); continue
+        if cfg['mode'] in RESET_MODES:
+            mr = re.search(r'worker_runs=(\d+) caller_runs=(\d+)', hdr)
+            if mr:
+                reset_stats['runs_on_worker_thread'] += int(mr.group(1)); reset_stats['runs_on_calling_thread'] += int(mr.group(2))
+                reset_stats['transitions_with_both'] += int(int(mr.group(1)) > 0 and int(mr.group(2)) > 0)
+        if cfg['mode'] in SIGNAL_MODES and not bad and mv['oracle'] == 1:
+            sv = signal_verdict(model, cfg, toks)
+            if sv is None:
+                chk.broke('model driver produced no signal verdict', dict(cfg, kind='driver')); continue
+            sbad, st = classify_signal(toks, cfg, signal_strict)
+            for k, v in st.items():
+                signal_stats[k] = signal_stats.get(k, 0) + v
+            if sbad or sv['oracle'] == 0:
+                b = (sbad or [('signal_oracle', 'extracted oracle prop_sig_b is false', '-', sv['prefix'])])[0]
+                kinds[b[0]] = kinds.get(b[0], 0) + 1
+                if reported < 3:
+                    def again(c, want=b[0]):
+                        rc2, hdr2, toks2, _ = run_one(impl, c)
+                        return hdr2 is not None and any(x[0] == want for x in classify_signal(toks2, c, signal_strict)[0])
+                    small = shrink_config(cfg, again)
+                    rc2, hdr2, toks2, _ = run_one(impl, small)
+                    sb2 = classify_signal(toks2, small, signal_strict)[0] if hdr2 else []
+                    if any(x[0] == b[0] for x in sb2):
+                        b = next(x for x in sb2 if x[0] == b[0]); shown, scfg, sv2 = toks2, small, signal_verdict(model, small, toks2)
+                    else:
+                        shown, scfg, sv2 = toks, cfg, sv
+                    sig_toks = [t for t in shown if t[0] in 'XSQ']
+                    chk.fail('%s: %s (mode %s, %d producer threads%s x %d messages; receiver and both signal sinks live in the main thread)' % (
+                                 b[0], b[1], scfg['mode'], scfg['n'], ' + the main thread' if nprod(scfg) > scfg['n'] else '', scfg['per']),
+                             dict(scfg, kind=b[0], detail=b[1], violations_in_this_run=len(sbad), signal_acceptor=sv2,
+                                  legend='X = recording sink, S = signal emitted (direct functor), Q = received by the sendToSignal() receiver; <producer>.<index>.<seq>',
+                                  trace_sink_emission_reception=sig_toks[:120], full_trace_events=len(shown), shrunk_from={'n': cfg['n'], 'per': cfg['per']}),
+                             kind=b[0])
+                    reported += 1
+                continue
+            if sv['accept'] == 0:
+                disagreements += 1
+                chk.broke('signal acceptor (Qt AutoConnection delivery rule, emission inside the pipeline run) rejects a trace that the '
+                          'boolean oracle takes (event %d of the X/S/Q trace): the implementation no longer emits/delivers the way the model says'
+                          % sv['prefix'], dict(cfg, kind='signal_acceptor', signal_acceptor=sv,
+                                               around=[t for t in toks if t[0] in 'XSQ'][max(0, sv['prefix'] - 6):sv['prefix'] + 4]))
         if 'OVERFLOW' in hdr:
             bad.append(('duplicate', 'more events than messages allow', len(toks)))
         ex_bad = [b for b in bad if b[0] != 'acq_order']
@@ -264,10 +423,27 @@ def run():
             b = (ex_bad or bad or [('oracle', 'extracted oracle prop_c02_b is false', mv['prefix'])])[0]
             kinds[b[0]] = kinds.get(b[0], 0) + 1
             if reported < 3:
+                shrunk_from = None
+                if cfg['mode'] in RESET_MODES + SIGNAL_MODES:
+                    def again(c, want=b[0]):
+                        rc2, hdr2, toks2, _ = run_one(impl, c)
+                        return hdr2 is not None and any(x[0] == want for x in classify(toks2, nprod(c), c['per']))
+                    small = shrink_config(cfg, again)
+                    for _ in range(3):
+                        rc2, hdr2, toks2, _ = run_one(impl, small)
+                        bad2 = classify(toks2, nprod(small), small['per']) if hdr2 else []
+                        if any(x[0] == b[0] for x in bad2):
+                            shrunk_from = {'n': cfg['n'], 'per': cfg['per']}
+                            cfg, toks, hdr, bad, b = small, toks2, hdr2, bad2, next(x for x in bad2 if x[0] == b[0])
+                            mv = model_verdict(model, cfg, toks) or mv
+                            break
                 ex_toks = [t for t in toks if t[0] in 'EX']
                 at = mv['prefix']
-                chk.fail('%s: %s (mode %s, %d threads x %d messages)' % (b[0], b[1], cfg['mode'], cfg['n'], cfg['per']),
-                         dict(cfg, kind=b[0], detail=b[1], violations_in_this_run=len(bad), acceptor=mv,
+                note = (' [pipeline moved to its own thread, resetOwnThread() called while the producers keep logging: the events of a '
+                        'producer\'s message are recorded on the worker thread (posted) or on the producer itself (synchronous again)]'
+                        if cfg['mode'] in RESET_MODES else '')
+                chk.fail('%s: %s (mode %s, %d threads x %d messages)%s' % (b[0], b[1], cfg['mode'], cfg['n'], cfg['per'], note),
+                         dict(cfg, kind=b[0], detail=b[1], violations_in_this_run=len(bad), acceptor=mv, shrunk_from=shrunk_from,
                               first_rejected_event=at, schedule_up_to_first_rejected_event=ex_toks[max(0, at - 30):at + 1],
                               trace_around_violation=toks[max(0, b[2] - 12):b[2] + 6],
                               full_trace_events=len(toks), header=hdr), kind=b[0])
@@ -307,10 +483,16 @@ def run():
                             'fatal-level messages through Logger::messageHandler and a sink whose flush() takes tickets) '
                             'N in {2,4,8,16,32,64} producer threads, ~%d messages per run, seeded yields/sleeps/spins at the schedule points, '
                             'plus runs in which one handler call lasts 1.3 s while the other producers keep logging; '
+                            'plus SignalSink runs (N producer threads, in signalmain also the main thread, receiver in the main thread) and '
+                            'resetwhile runs (asynchronous pipeline with a backlog, resetOwnThread() from another thread while the producers go on); '
                             'non-trivial = at least two deliveries per producer' % (len(results), total),
                     'events_recorded': n_events, 'deliveries': n_deliv, 'producer_switches_between_consecutive_deliveries': switches,
                     'threads_histogram': {str(n): sum(1 for r in results if r[0]['n'] == n) for n in NS},
-                    'mode_histogram': {m: sum(1 for r in results if r[0]['mode'] == m) for m in ('logger', 'bare', 'mixed', 'fatal', 'mixed+fatal', 'throw', 'throwlogger', 'filtered', 'pattern')},
+                    'mode_histogram': {m: sum(1 for r in results if r[0]['mode'] == m) for m in ALL_MODES},
+                    'signal_sinks': dict(signal_stats, strict_receiver_order_oracle_enabled=signal_strict,
+                                         note='S = emission observed by a directly connected functor; Q = reception by a QObject in the main '
+                                              'thread connected by the library\'s sendToSignal() (string-based AutoConnection)'),
+                    'reset_while_logging': reset_stats,
                     'formatted_texts_compared': fmt_checked,
                     'flush_intervals_recorded': sum(sum(1 for t in r[3] if t[0] == 'F') for r in results),
                     'perturb_histogram': {str(p): sum(1 for r in results if r[0]['perturb'] == p) for p in range(4)},
@@ -334,6 +516,9 @@ def replay(path):
     print('recorded schedule (tail):', ' '.join(r.get('schedule_up_to_first_rejected_event', [])))
     for k in range(5):   # schedules are not deterministic: re-run the same configuration a few times
         rc, hdr, toks, err = run_one(impl, cfg)
-        bad = classify(toks, cfg['n'], cfg['per']) if hdr else [('crash', err[-200:], 0)]
+        bad = classify(toks, nprod(cfg), cfg['per']) if hdr else [('crash', err[-200:], 0)]
         print('re-run %d: implementation rc=%d %s; violations: %s; model: %s' % (k, rc, hdr, bad[:2], model_verdict(model, cfg, toks) if hdr else None))
+        if hdr and cfg['mode'] in SIGNAL_MODES:
+            print('          signal sink / receiver: violations: %s; model (Qt AutoConnection delivery rule): %s' % (
+                classify_signal(toks, cfg, os.environ.get('VERIF_C02_SIGNAL_STRICT') == '1')[0][:2], signal_verdict(model, cfg, toks)))
     return 0
